@@ -135,6 +135,8 @@ class UpdateVcsgLocationAnswer(UpdateVcsgLocation):
         setattr(self, "load", [])
         setattr(self, "reset_id", [])
         setattr(self, "failed_avp", [])
+        setattr(self, "supported_features", [])
+        setattr(self, "vplmn_csg_subscription_data", [])
         setattr(self, "proxy_info", [])
         setattr(self, "route_record", [])
 
